@@ -165,6 +165,23 @@ func TestBoundaryTables(t *testing.T) {
 		lit("string", s)
 		lit("uid", s)
 	}
+	// every short sequence over backslash, quote and a few escape letters: which quote closes the literal depends on the
+	// parity of the backslash run before it
+	var seqs func(alpha []string, prefix string, left int)
+	seqs = func(alpha []string, prefix string, left int) {
+		if prefix != "" {
+			lit("string", prefix)
+			lit("uid", prefix)
+		}
+		if left == 0 {
+			return
+		}
+		for _, a := range alpha {
+			seqs(alpha, prefix+a, left-1)
+		}
+	}
+	seqs([]string{`\`, `"`, `a`}, "", 6)
+	seqs([]string{`\`, `"`, `'`, `n`, `*`}, "", 4)
 	ev.R.Space("boundary tables: print->parse of every boundary long/decimal/datetime/duration (incl. year and day edges), all 10^4 fraction patterns, all duration unit subsets, every ip prefix length and zero-group pattern, NewDecimal over boundaries x exponents -6..16, NewDecimalFromInt widths, constructor text tables, escape-form table", n)
 }
 
